@@ -167,6 +167,7 @@ class FormulaManager(object):
         variables_tuple = tuple(variables)
         if len(variables_tuple) == 0:
             return formula
+        self._assert_are_symbols(variables_tuple)
         return self.create_node(node_type=op.FORALL,
                                 args=(formula,),
                                 payload=variables_tuple)
@@ -182,9 +183,16 @@ class FormulaManager(object):
         variables_tuple = tuple(variables)
         if len(variables_tuple) == 0:
             return formula
+        self._assert_are_symbols(variables_tuple)
         return self.create_node(node_type=op.EXISTS,
                                 args=(formula,),
                                 payload=variables_tuple)
+
+    def _assert_are_symbols(self, variables: Tuple[FNode, ...]):
+        for v in variables:
+            if not v.is_symbol():
+                raise PysmtTypeError("Only symbols can be quantified, "
+                                     "got '%s'." % str(v))
 
     def Function(self, vname: FNode, params: Sequence[FNode]) -> FNode:
         """Returns the function application of vname to params.
